@@ -204,6 +204,162 @@ theorem clipSegSeg2_spec (a1 b1 a2 b2 : V2 K) (ca cb : Clip2 K)
     exact ⟨⟨x.1, seg2_mem_swap sq _ _ _ x.2.1, x.2.2⟩, ⟨y.1, seg2_mem_swap sq _ _ _ y.2.1, y.2.2⟩⟩
   · exact clip2Ordered_spec sq a1 b1 a2 b2 _ _ _ _ _ _ rfl rfl ca cb h
 
+/-! ## 3-D `contact_manifold_capsule_capsule` -/
+
+private theorem clamp01_range' (x : K) : letI := fieldNum K sq; 0 ≤ clamp01 x ∧ clamp01 x ≤ 1 := by
+  simp only [clamp01]
+  split_ifs with h1 h2
+  · exact ⟨le_of_lt h1, le_of_lt h2⟩
+  · exact ⟨zero_le_one, le_rfl⟩
+  · exact ⟨le_rfl, zero_le_one⟩
+
+private theorem segSegParams3_range (ulps : K → K → Bool) (a1 b1 a2 b2 : V3 K) :
+    letI := fieldNum K sq
+    (0 ≤ (segSegParams3 ulps a1 b1 a2 b2).1 ∧ (segSegParams3 ulps a1 b1 a2 b2).1 ≤ 1) ∧
+    (0 ≤ (segSegParams3 ulps a1 b1 a2 b2).2 ∧ (segSegParams3 ulps a1 b1 a2 b2).2 ≤ 1) := by
+  have z : (0 : K) ≤ 0 ∧ (0 : K) ≤ 1 := ⟨le_rfl, zero_le_one⟩
+  have o : (0 : K) ≤ 1 ∧ (1 : K) ≤ 1 := ⟨zero_le_one, le_rfl⟩
+  simp only [segSegParams3]
+  split_ifs
+  · exact ⟨z, z⟩
+  · exact ⟨z, clamp01_range' sq _⟩
+  · exact ⟨clamp01_range' sq _, z⟩
+  · exact ⟨clamp01_range' sq _, z⟩
+  · exact ⟨clamp01_range' sq _, o⟩
+  · exact ⟨clamp01_range' sq _, not_lt.mp (by assumption), not_lt.mp (by assumption)⟩
+  · exact ⟨clamp01_range' sq _, z⟩
+  · exact ⟨clamp01_range' sq _, o⟩
+  · exact ⟨z, not_lt.mp (by assumption), not_lt.mp (by assumption)⟩
+
+private theorem baryPoint3_mem (a b : V3 K) (s : K) (h0 : 0 ≤ s) (h1 : s ≤ 1) :
+    letI := fieldNum K sq; (Segment3.mk a b).Mem (baryPoint3 a b (bcoords s)) := by
+  simp only [baryPoint3, bcoords]
+  split_ifs
+  · refine ⟨0, le_rfl, zero_le_one, ?_⟩
+    apply V3.ext' <;> simp only [V3.add, V3.sub, V3.smul] <;> ring
+  · refine ⟨1, zero_le_one, le_rfl, ?_⟩
+    apply V3.ext' <;> simp only [V3.add, V3.sub, V3.smul] <;> ring
+  · refine ⟨s, h0, h1, ?_⟩
+    apply V3.ext' <;> simp only [V3.add, V3.sub, V3.smul] <;> ring
+
+private theorem tryNew3_some (hs : LawfulSqrt sq) (v n : V3 K) (e : K)
+    (h : letI := fieldNum K sq; tryNew3 v e = some n) :
+    letI := fieldNum K sq
+    n.dot n = 1 := by
+  simp only [tryNew3] at h
+  split_ifs at h with hpos
+  simp only [Option.some.injEq] at h
+  have hn := hs.sq_mul _ (normSq_nonneg3 sq v)
+  have hpos' : 0 < @V3.normSq K (fieldNum K sq) v := lt_of_le_of_lt (mul_self_nonneg e) hpos
+  simp only [fieldNum_sqrt] at h
+  set c := sq (@V3.normSq K (fieldNum K sq) v) with hc
+  have hc0 : c ≠ 0 := by
+    intro hz; rw [hz] at hn; simp at hn; rw [← hn] at hpos'; exact lt_irrefl _ hpos'
+  subst h
+  simp only [V3.normSq, V3.dot] at hn
+  simp only [V3.dot, V3.sdiv]; field_simp; linear_combination (-1 : K) * hn
+
+private theorem capsuleAxisPoints3_spec (hs : LawfulSqrt sq) (ulps : K → K → Bool) (a1 b1 a2 b2 : V3 K) :
+    letI := fieldNum K sq
+    (Segment3.mk a1 b1).Mem (capsuleAxisPoints3 ulps a1 b1 a2 b2).1 ∧
+    (Segment3.mk a2 b2).Mem (capsuleAxisPoints3 ulps a1 b1 a2 b2).2.1 ∧
+    (capsuleAxisPoints3 ulps a1 b1 a2 b2).2.2.dot (capsuleAxisPoints3 ulps a1 b1 a2 b2).2.2 = 1 := by
+  obtain ⟨⟨s0, s1⟩, ⟨t0, t1⟩⟩ := segSegParams3_range sq ulps a1 b1 a2 b2
+  simp only [capsuleAxisPoints3]
+  refine ⟨baryPoint3_mem sq _ _ _ s0 s1, baryPoint3_mem sq _ _ _ t0 t1, ?_⟩
+  split
+  · rename_i n hn
+    exact tryNew3_some sq hs _ _ _ hn
+  · simp [V3.dot]
+
+private theorem rot_add3 (m : Iso3 K) (u v : V3 K) :
+    letI := fieldNum K sq
+    m.rot (u.add v) = (m.rot u).add (m.rot v) := by
+  apply V3.ext' <;>
+    simp only [Iso3.rot, Iso3.rotQ, Iso3.qv, V3.add, V3.smul, V3.cross, fieldNum_two] <;> ring
+
+/-- a point of the transformed segment pulls back into the segment -/
+private theorem seg3_mem_invAct (m : Iso3 K) (hq : UnitQ m) (a b y : V3 K)
+    (h : letI := fieldNum K sq; (Segment3.mk (m.act a) (m.act b)).Mem y) :
+    letI := fieldNum K sq; (Segment3.mk a b).Mem (m.invAct y) := by
+  obtain ⟨t, h0, h1, rfl⟩ := h
+  refine ⟨t, h0, h1, ?_⟩
+  have e : @V3.sub K (fieldNum K sq) (@V3.add K (fieldNum K sq) (@Iso3.act K (fieldNum K sq) m a)
+        (@V3.smul K (fieldNum K sq) (@V3.sub K (fieldNum K sq) (@Iso3.act K (fieldNum K sq) m b) (@Iso3.act K (fieldNum K sq) m a)) t)) m.t
+      = @Iso3.rot K (fieldNum K sq) m (@V3.add K (fieldNum K sq) a (@V3.smul K (fieldNum K sq) (@V3.sub K (fieldNum K sq) b a) t)) := by
+    rw [rot_add3, rot_smul3, rot_sub3]
+    apply V3.ext' <;> simp only [Iso3.act, V3.add, V3.sub, V3.smul] <;> ring
+  simp only [Iso3.invAct]
+  rw [e, invRot_rot3 sq m _ hq]
+
+/-- `p ∈ Capsule(a, b, r)`: within `r` of a point of the axis -/
+def InCapsule3 (a b : V3 K) (r : K) (p : V3 K) : Prop :=
+  letI := fieldNum K sq
+  ∃ q, (Segment3.mk a b).Mem q ∧ (p.sub q).normSq ≤ r * r
+
+/-- **C14 (b), 3-D capsule/capsule.**  Let `(p1, p2', n1)` be the closest points of the two axes and the normal computed
+by the generator (frame of capsule 1) and `d = (p2' − p1)·n1 − r1 − r2`.
+* If `¬ d ≤ prediction` the manifold is cleared.
+* Otherwise `|n1| = |n2| = 1`, `pos12·n2 = −n1` exactly, the first contact is the generator's: `dist = d`,
+  `dist = (pos12·local_p2 − local_p1)·n1` (the `dist` identity), `local_p1` in capsule 1, `local_p2` in capsule 2, and the
+  two witnesses face each other along the normal up to the tangential offset of the closest axis points:
+  `pos12·local_p2 − local_p1 = (p2' − p1) − n1 (r1 + r2)`; the other (stale) points of the manifold are kept as they were.
+For every tie-breaking predicate `ulps`, arbitrary axes, radii and prediction of any sign. -/
+theorem capsuleCapsule3_spec (hs : LawfulSqrt sq) (ulps : K → K → Bool) (pos12 : Iso3 K) (hq : UnitQ pos12)
+    (a1 b1 : V3 K) (r1 : K) (a2 b2 : V3 K) (r2 pred : K) (m : Manifold3 K) :
+    letI := fieldNum K sq
+    let ax := capsuleAxisPoints3 ulps a1 b1 (pos12.act a2) (pos12.act b2)
+    let d := (ax.2.1.sub ax.1).dot ax.2.2 - r1 - r2
+    let m' := capsuleCapsule3 ulps pos12 a1 b1 r1 a2 b2 r2 pred m
+    (¬ d ≤ pred → m' = m.clear) ∧
+    (d ≤ pred →
+      m'.n1 = ax.2.2 ∧ m'.n1.dot m'.n1 = 1 ∧ m'.n2.dot m'.n2 = 1 ∧ pos12.rot m'.n2 = m'.n1.neg ∧
+      ∃ c, m'.points = c :: m.points.tail ∧ c.dist = d ∧
+        c.dist = ((pos12.act c.p2).sub c.p1).dot m'.n1 ∧
+        InCapsule3 sq a1 b1 r1 c.p1 ∧ InCapsule3 sq a2 b2 r2 c.p2 ∧
+        (pos12.act c.p2).sub c.p1 = (ax.2.1.sub ax.1).sub (m'.n1.smul (r1 + r2))) := by
+  intro ax d m'
+  obtain ⟨hm1, hm2, hn⟩ := capsuleAxisPoints3_spec sq hs ulps a1 b1
+    (@Iso3.act K (fieldNum K sq) pos12 a2) (@Iso3.act K (fieldNum K sq) pos12 b2)
+  refine ⟨?_, ?_⟩
+  · intro h
+    simp only [m', capsuleCapsule3]
+    rw [if_neg h]
+  · intro h
+    obtain ⟨b1', b2', _, _, b5, b6⟩ := ball_contact3 sq pos12 hq ax.2.2 r1 r2 hn
+    have hm' : m' = ⟨setFirst (⟨@V3.add K (fieldNum K sq) ax.1 (@V3.smul K (fieldNum K sq) ax.2.2 r1),
+          @V3.add K (fieldNum K sq) (@Iso3.invAct K (fieldNum K sq) pos12 ax.2.1)
+            (@V3.smul K (fieldNum K sq) (@Iso3.invRot K (fieldNum K sq) pos12 (@V3.neg K (fieldNum K sq) ax.2.2)) r2), d⟩ : Contact3 K)
+          m.points, ax.2.2, @Iso3.invRot K (fieldNum K sq) pos12 (@V3.neg K (fieldNum K sq) ax.2.2)⟩ := by
+      simp only [m', capsuleCapsule3]
+      rw [if_pos h]
+    -- `pos12 · local_p2 = p2' − n1 r2`
+    have e1 : @Iso3.act K (fieldNum K sq) pos12
+        (@V3.add K (fieldNum K sq) (@Iso3.invAct K (fieldNum K sq) pos12 ax.2.1)
+          (@V3.smul K (fieldNum K sq) (@Iso3.invRot K (fieldNum K sq) pos12 (@V3.neg K (fieldNum K sq) ax.2.2)) r2))
+        = @V3.sub K (fieldNum K sq) ax.2.1 (@V3.smul K (fieldNum K sq) ax.2.2 r2) := by
+      simp only [Iso3.act, Iso3.invAct]
+      rw [rot_add3, rot_smul3, rot_invRot3 sq pos12 _ hq, rot_invRot3 sq pos12 _ hq]
+      apply V3.ext' <;> simp only [V3.add, V3.sub, V3.smul, V3.neg] <;> ring
+    have hpts : ∀ c : Contact3 K, setFirst c m.points = c :: m.points.tail := by
+      intro c; cases m.points <;> rfl
+    rw [hm']
+    refine ⟨rfl, hn, b1', b2', _, hpts _, rfl, ?_, ⟨ax.1, hm1, ?_⟩,
+      ⟨@Iso3.invAct K (fieldNum K sq) pos12 ax.2.1, seg3_mem_invAct sq pos12 hq a2 b2 _ hm2, ?_⟩, ?_⟩
+    · simp only []
+      rw [e1]
+      simp only [d, V3.dot, V3.add, V3.sub, V3.smul] at hn ⊢
+      linear_combination (r1 + r2) * hn
+    · simp only [V3.normSq, V3.dot, V3.add, V3.sub, V3.smul] at hn ⊢
+      apply le_of_eq; linear_combination (r1 * r1) * hn
+    · simp only [V3.normSq, V3.dot, V3.add, V3.sub, V3.smul] at b1' ⊢
+      apply le_of_eq; linear_combination (r2 * r2) * b1'
+    · simp only []
+      rw [e1]
+      apply V3.ext' <;> simp only [V3.add, V3.sub, V3.smul] <;> ring
+
+example : UnitQ (⟨0, 0, 0, 1, ⟨3, 0, 0⟩⟩ : Iso3 ℚ) := by simp [UnitQ]
+
 /-! ## the sub-detector bookkeeping of `contact_manifolds_composite_shape_composite_shape`
 
 Same statements as for `contact_manifolds_composite_shape_shape` (Theorems.lean), over an arbitrary key type `κ`
